@@ -27,6 +27,12 @@ fn ids(thorough: bool) -> Vec<RefVal> {
         }
         v.push(RefVal::Ref { node: node.to_string(), creation: 1, ids: vec![7] });
     }
+    // id words that are zero (leading, inner, trailing, all)
+    for ids in [vec![0u32], vec![0x2A41, 0], vec![0, 7], vec![1, 2, 3, 0, 0], vec![0, 0, 0], vec![5, 0, 6], vec![0, 0, 0, 0, 1], vec![1, 0, 0, 0, 0]] {
+        v.push(RefVal::Ref { node: "n@h".into(), creation: 4, ids });
+    }
+    v.push(RefVal::Pid { node: "n@h".into(), id: 0, serial: 0, creation: 1 });
+    v.push(RefVal::Port { node: "n@h".into(), id: 0, creation: 0 });
     // node names at the atom limit of 255 characters: 255 bytes of ASCII, and up to 1020 bytes of UTF-8
     for node in ["a".repeat(253) + "@h", "é".repeat(150) + "@h", "é".repeat(253) + "@h", "😀".repeat(253) + "@h"] {
         v.push(RefVal::Pid { node: node.clone(), id: 1, serial: 2, creation: 3 });
